@@ -353,6 +353,21 @@ def c_option_ok_or(ex, st, key, argv, dest_ty, raw):
                                   "None": lambda ex, st, a: ex.make_enum(dest_ty, "Err", [a[1]])})
 
 
+def c_slice_first(ex, st, key, argv, dest_ty, raw):
+    """<[u8]>::first: Some(&s[0]) iff the slice is not empty"""
+    sl = deref(argv[0])
+    n = ex.field(sl, "meta", 0, "usize").v
+
+    def some(ex, st, a):
+        sl = deref(a[0])
+        return ex.make_enum(dest_ty, "Some", [Ref(ex.field(sl, "elem", 0, "u8"))])
+    return [Case(n != 0, some), Case(n == 0, lambda ex, st, a: ex.make_enum(dest_ty, "None"))]
+
+
+def c_slice_len(ex, st, key, argv, dest_ty, raw):
+    return [Case(None, lambda ex, st, a: ex.field(deref(a[0]), "meta", 0, "usize").v)]
+
+
 def c_option_transpose(ex, st, key, argv, dest_ty, raw):
     """Option<Result<T, E>>::transpose"""
     o = argv[0]
@@ -395,6 +410,8 @@ def std_contracts():
         (r"^Option::or$", c_option_or),
         (r"^Option::ok_or$", c_option_ok_or),
         (r"^Option::transpose$", c_option_transpose),
+        (r"^core::slice::<impl \[T\]>::first$|^\[T\]::first$|slice::.*::first$|^\[u8\]::first$", c_slice_first),
+        (r"^core::slice::<impl \[T\]>::len$|^\[T\]::len$|^\[u8\]::len$", c_slice_len),
         (r"^(VarInt|StreamId|PushId|SessionId|T) as (From|Into)::(from|into)$", c_newtype_conv),
         (r"^(VarInt|StreamId|PushId|T) as Partial(Ord|Eq)::(lt|le|gt|ge|eq|ne)$", c_newtype_cmp),
         (r"^core::fmt::rt::Argument::new_|^Argument::new_|^Arguments::new|^format$|^core::fmt::rt::Argument", c_opaque),
